@@ -337,6 +337,33 @@ def r18_5(ctx):
                             called.add("str::" + cal.name)
             missing = [w for w in want if w not in called]
             r.ob("wrappers:%s" % f.name, not missing, f.site, "calls its native counterpart(s) %s" % want if not missing else "does not call %s" % missing)
+            # ... on every path on which its inputs were usable: the only ways out without the native call are a null
+            # pointer and an input that could not be converted (an early return for "nothing to do" skips whatever else
+            # the native function does -- bookkeeping on the object the later calls rely on)
+            try:
+                ps = Sym(f, copies=True, max_paths=20000).paths()
+            except Exception as e:  # TooManyPaths: cannot decide
+                r.ob("wrappers:%s:reaches-native" % f.name, False, f.site, "extract: %s" % e)
+                ps = []
+            skipping = []
+            n_ret = 0
+            for p in ps:
+                if p.end[0] != "ret":
+                    continue
+                n_ret += 1
+                native = [e for e in p.events if e[0] == "call" and (e[1] in want or e[1].split("::<")[0] in want or ("str::" + e[1].rsplit("::", 1)[-1]) in want)]
+                if native:
+                    continue
+                excused = False
+                for a, v in p.conds:
+                    if a[0] == "call" and a[1].endswith("::is_null") and v == 1:
+                        excused = True
+                    if a[0] == "disc" and v in ("None", "Err") and mentions(a[1], lambda y: y[0] == "call" and (y[1].startswith("ffi_helpers::") or y[1].rsplit("::", 1)[-1] in ("parse", "from_str", "from_utf8", "to_str", "as_ref", "as_mut"))):
+                        excused = True
+                if not excused:
+                    skipping.append(", ".join("%s = %s" % (show(a, f)[:60], v) for a, v in p.conds) or "unconditionally")
+            if ps:
+                r.ob("wrappers:%s:reaches-native" % f.name, not skipping and n_ret >= 1, f.site, "every return that skips %s follows a null pointer or an unusable input" % want if not skipping else "returns without calling %s when %s" % (want, skipping[0]))
             # no other local library function is involved (thin)
             local_calls = set()
             for bi, t, cal in f.calls():
